@@ -26,6 +26,7 @@ RULE = (
     "the real exit code, status 'finished' and the HPC job id. non-trivial = >= 1 token that needs quoting; distinct "
     "by hash of the case"
 )
+RULE += " Later additions (DESIGN.md 9): " + 'names include look-alikes (None, null, nan, True, 0, name, ...).'
 ASSUMPTIONS = [
     "'POSIX shell rules' = quoting and word splitting (what shlex in POSIX mode implements); no expansion happens "
     "because no shell is involved -- $, globs and backticks are ordinary characters",
